@@ -14,7 +14,7 @@ mkdir -p "$wt/_verif"
 rsync -a --exclude build --exclude .git --exclude replays --exclude seeded /verif/ "$wt/_verif/"
 sed -i "s#/verif/build#$wt/_vbuild#g" "$wt/_verif/Makefile"
 out=$(VERIF_REPO="$wt" VERIF_BUILD="$wt/_vbuild" VERIF_BUDGET_S=$budget "$wt/_verif/check" "$prop" "$tier" 2>&1); rc=$?
-echo "$out" | grep -E "failure class|VIOLATION|KNOWN-FINDING|BUILD FAILED|error:|runs \(" | cut -c1-400 | head -12
+echo "$out" | grep -E "failure class|VIOLATION|KNOWN-FINDING|BUILD FAILED|error:|runs \(|WATCHDOG|differ|not reproduce|exit 2|GATE" | cut -c1-400 | head -12
 if [ $rc -eq 1 ]; then
 	r=$(echo "$out" | grep -o "replay=[^ ]*" | head -1 | cut -d= -f2)
 	[ -n "$r" ] && [ -f "$r" ] && { echo "--- minimised replay of the first failure class:"; grep -v "^#  " "$r" | head -25; }
